@@ -631,10 +631,178 @@ fn run_seq<T: TargetKind>(c: &mut Ctx, fam: &str, idx: u64, rng: &mut Rng, size_
     }
 }
 
+/// Land the message exactly on, just below and just above the size boundary of
+/// the target (65535 octets for stream targets, the capacity of a fixed array,
+/// a push limit elsewhere): the push succeeds exactly when the message still
+/// fits, a refused push changes nothing, and a record that fits exactly is
+/// still accepted afterwards.
+fn run_edge<T: TargetKind>(c: &mut Ctx, fam: &str, idx: u64, rng: &mut Rng, obs: &mut Obs) {
+    let tname = T::NAME;
+    let mut trace: Vec<String> = Vec::new();
+    let mb = match MessageBuilder::from_target(T::make()) {
+        Ok(m) => m,
+        Err(_) => return,
+    };
+    let mut b = B::Q(mb.question());
+    let mut items: Vec<Item> = Vec::new();
+    // hard boundary: the largest message the target can hold; soft: a push limit (a message of
+    // exactly `limit` octets is refused by the library, which the documentation leaves open)
+    let (boundary, hard): (usize, bool) = if T::STREAM && rng.chance(2, 3) {
+        (65535, true)
+    } else if tname.contains("Array512") {
+        (512, true)
+    } else if tname.contains("Array2048") {
+        (2048, true)
+    } else {
+        let l = match rng.below(3) { 0 => rng.range(60, 600), 1 => rng.range(600, 20000), _ => rng.range(20000, 65535) };
+        b.mb_mut().set_push_limit(l);
+        trace.push(format!("set_push_limit({})", l));
+        (l, false)
+    };
+    let qn = names::abs_name(rng);
+    if qn.len() + 4 + 12 + 30 < boundary {
+        let q = Question::new(Name::<Vec<u8>>::from_octets(qn.clone()).unwrap(), Rtype::A, Class::IN);
+        if let B::Q(qb) = &mut b {
+            if qb.push(&q).is_ok() {
+                items.push(Item { section: 0, owner: qn.clone(), rtype: 1, class: 1, ttl: 0, rdata: vec![] });
+                trace.push("push_question -> ok".into());
+            }
+        }
+    }
+    b = b.goto(1);
+    let delta = rng.range(0, 6) as isize - 3; // -3..=3
+    let total = (boundary as isize + delta) as usize;
+    let push_filler = |b: &mut B<T>, rdl: usize| -> bool {
+        let fs = vec![Fv::Raw(vec![0xA5u8; rdl])];
+        let Some(rec) = lib_record(&[0], 65280, 1, 7, &fs) else { return false };
+        if let B::An(ab) = b { ab.push(&rec).is_ok() } else { false }
+    };
+    // fillers until exactly one more record of 11..=4011 octets is needed to reach `total`
+    loop {
+        let cur = b.mb().as_slice().len();
+        if total < cur + 11 {
+            return; // cannot land (tiny limit); nothing to judge
+        }
+        let need = total - cur;
+        if need <= 4011 {
+            break;
+        }
+        let rdl = (need - 11 - 11).min(rng.range(500, 4000));
+        if !push_filler(&mut b, rdl) {
+            let rp = c.replay_of(fam, idx, json!({"target": tname, "ops": trace}));
+            c.violation(&format!("edge-filler-refused:{}", tname), &format!("a record ending at {} octets was refused although the boundary is {}", cur + 11 + rdl, boundary), rp);
+            return;
+        }
+        items.push(Item { section: 1, owner: vec![0], rtype: 65280, class: 1, ttl: 7, rdata: vec![0xA5u8; rdl] });
+        trace.push(format!("filler({})", rdl));
+    }
+    let cur = b.mb().as_slice().len();
+    let before = b.mb().as_slice().to_vec();
+    let rdl = total - cur - 11;
+    let ok = push_filler(&mut b, rdl);
+    trace.push(format!("edge push ending at {} (boundary {} {}) -> {}", total, boundary, if hard { "hard" } else { "push limit" }, if ok { "ok" } else { "err" }));
+    let must_fit = if hard { total <= boundary } else { total < boundary };
+    let must_fail = total > boundary;
+    let now = b.mb().as_slice().len();
+    if ok {
+        items.push(Item { section: 1, owner: vec![0], rtype: 65280, class: 1, ttl: 7, rdata: vec![0xA5u8; rdl] });
+        obs.ok_pushes += 1;
+    } else {
+        obs.failed_pushes += 1;
+    }
+    if ok && must_fail {
+        let rp = c.replay_of(fam, idx, json!({"target": tname, "ops": trace}));
+        c.violation(&format!("edge-overlong-accepted:{}", tname), &format!("a push that makes the message {} octets long succeeded; the boundary is {}", total, boundary), rp);
+        return;
+    }
+    if !ok && must_fit {
+        let rp = c.replay_of(fam, idx, json!({"target": tname, "ops": trace}));
+        c.violation(&format!("edge-fitting-refused:{}", tname), &format!("a push that makes the message {} octets long was refused; the boundary is {}", total, boundary), rp);
+        return;
+    }
+    if ok && now != total || !ok && b.mb().as_slice() != &before[..] {
+        let rp = c.replay_of(fam, idx, json!({"target": tname, "ops": trace}));
+        c.violation(&format!("failed-push-not-identity:{}", tname), &format!("after the edge push the message has {} octets (before {}, aimed at {})", now, cur, total), rp);
+        return;
+    }
+    if !ok {
+        // a record that fits exactly is still accepted after the refusal
+        let fit = if hard { boundary } else { boundary - 1 };
+        if fit >= cur + 11 {
+            let rdl2 = fit - cur - 11;
+            let ok2 = push_filler(&mut b, rdl2);
+            trace.push(format!("push ending at {} -> {}", fit, if ok2 { "ok" } else { "err" }));
+            if !ok2 {
+                let rp = c.replay_of(fam, idx, json!({"target": tname, "ops": trace}));
+                c.violation(&format!("edge-fitting-refused:{}", tname), &format!("after a refused push, a push that makes the message {} octets long was refused; the boundary is {}", fit, boundary), rp);
+                return;
+            }
+            items.push(Item { section: 1, owner: vec![0], rtype: 65280, class: 1, ttl: 7, rdata: vec![0xA5u8; rdl2] });
+        }
+    }
+    c.count(if hard { "edge_hard_boundary" } else { "edge_push_limit" }, 1);
+    if delta == 1 && hard && T::STREAM {
+        c.count("edge_stream_65536", 1);
+    }
+    let hdr = (u16::from_be_bytes([before[0], before[1]]), u16::from_be_bytes([before[2], before[3]]));
+    let oct_before = b.mb().as_slice().to_vec();
+    let target = b.finish();
+    let oct = target.as_ref().to_vec();
+    if oct != oct_before {
+        let rp = c.replay_of(fam, idx, json!({"target": tname, "ops": trace}));
+        c.violation(&format!("finish-changes-octets:{}", tname), "finish() returned different octets than as_slice()", rp);
+        return;
+    }
+    if let Some(st) = target.stream_octets() {
+        let l = u16::from_be_bytes([st[0], st[1]]) as usize;
+        if l != st.len() - 2 || st[2..] != oct[..] {
+            let rp = c.replay_of(fam, idx, json!({"target": tname, "ops": trace}));
+            c.violation(&format!("stream-prefix:{}", tname), &format!("stream length prefix {} but the message has {} octets", l, st.len() - 2), rp);
+            return;
+        }
+        c.count("stream_prefix_checked", 1);
+    }
+    verify(c, fam, idx, tname, &oct, &items, hdr, &trace, obs);
+    c.eval(&("edge", tname, hard, delta, boundary / 4096));
+}
+
 pub fn run(c: &mut Ctx) {
+    let mut obs = Obs { pointers: 0, failed_pushes: 0, ok_pushes: 0, max_len: 0, case_changed_by_compression: 0 };
+    let fam = "edge";
+    let total = c.total(12_000, 240_000);
+    for idx in c.cases(fam, total) {
+        if c.out_of_time() {
+            break;
+        }
+        let mut rng = c.case_rng(fam, idx);
+        let tk = idx % 12;
+        let r = crate::ctx::catch(|| {
+            let c = &mut *c;
+            let obs = &mut obs;
+            let rng = &mut rng;
+            match tk {
+                0 => run_edge::<Vec<u8>>(c, fam, idx, rng, obs),
+                1 => run_edge::<BytesMut>(c, fam, idx, rng, obs),
+                2 => run_edge::<octseq::array::Array<512>>(c, fam, idx, rng, obs),
+                3 => run_edge::<octseq::array::Array<2048>>(c, fam, idx, rng, obs),
+                4 => run_edge::<StreamTarget<Vec<u8>>>(c, fam, idx, rng, obs),
+                5 => run_edge::<StreamTarget<BytesMut>>(c, fam, idx, rng, obs),
+                6 => run_edge::<StaticCompressor<StreamTarget<Vec<u8>>>>(c, fam, idx, rng, obs),
+                7 => run_edge::<TreeCompressor<StreamTarget<Vec<u8>>>>(c, fam, idx, rng, obs),
+                8 => run_edge::<HashCompressor<StreamTarget<Vec<u8>>>>(c, fam, idx, rng, obs),
+                9 => run_edge::<StaticCompressor<octseq::array::Array<512>>>(c, fam, idx, rng, obs),
+                10 => run_edge::<TreeCompressor<Vec<u8>>>(c, fam, idx, rng, obs),
+                _ => run_edge::<HashCompressor<octseq::array::Array<512>>>(c, fam, idx, rng, obs),
+            }
+        });
+        if let Err(pi) = r {
+            let sig = format!("panic:{}", pi.site());
+            let rp = c.replay_of(fam, idx, json!({"target_kind": tk}));
+            c.violation(&sig, &format!("panic while building a message up to its size boundary: {} at {}:{}", pi.msg, pi.file, pi.line), rp);
+        }
+    }
     let fam = "seq";
     let total = c.total(300_000, 6_000_000);
-    let mut obs = Obs { pointers: 0, failed_pushes: 0, ok_pushes: 0, max_len: 0, case_changed_by_compression: 0 };
     for idx in c.cases(fam, total) {
         if c.out_of_time() {
             break;
@@ -690,5 +858,8 @@ pub fn run(c: &mut Ctx) {
         c.floor("stream_prefix_checked", 100);
         c.floor("messages_beyond_0x3FFF", 10);
         c.floor("messages_near_0xFFFF", 1);
+        c.floor("edge_hard_boundary", 100);
+        c.floor("edge_push_limit", 100);
+        c.floor("edge_stream_65536", 10);
     }
 }
